@@ -34,10 +34,15 @@ def run(ctx):
     from .c12 import clamps, cap_only_without_delimiter
     clamps(ctx, "C06.R5")
     cap_only_without_delimiter(ctx, "C06.R5")
+    from .c12 import cap_is_stream_property
+    cap_is_stream_property(ctx, "C06.R5")
     ctx.rule("C06.R7", "K3", "(= C07.R1) the unread body of the previous request is discarded completely -- by a loop that reads until nothing is left, however the body is cut across reads -- before the next message is parsed")
     from . import c07
     from .common import MultiAlias
     c07.r1(MultiAlias(ctx, {"C07.R1": "C06.R7"}))
+    # ... and a body whose framing is found broken while the application reads it ends the connection: otherwise what follows
+    # the broken spot is parsed as a request or not depending on where the reads ended (C07.R3 under this property)
+    c07.chunk_error_closes(ctx, "C06.R7")
     ctx.rule("C06.R8", "K3", "a worker that serves one request per wake-up and then waits for the socket to become readable looks first at the bytes its parser has already taken from the socket")
     parked_with_buffered_input(ctx, "C06.R8")
 
